@@ -21,6 +21,8 @@ pub struct GenParams {
     pub modes: [u32; 4],
     pub max_fates: usize,
     pub tight_alloc: bool,
+    /// tails in which one application keeps talking (see `Tail::chatter`)
+    pub chatter: bool,
 }
 
 impl Default for GenParams {
@@ -39,6 +41,7 @@ impl Default for GenParams {
             modes: [1, 2, 2, 3],
             max_fates: 200,
             tight_alloc: true,
+            chatter: false,
         }
     }
 }
@@ -206,7 +209,17 @@ fn ticks_strategy(p: &GenParams) -> BoxedStrategy<Vec<Tick>> {
 
 pub fn scenario_strategy(p: &GenParams) -> BoxedStrategy<PairScenario> {
     let tail = if p.tail {
-        prop_oneof![Just(1_000u32), Just(10_000u32), Just(16_000u32), Just(30_000u32), Just(100_000u32)].prop_map(|step_us| Some(Tail { step_us, max_us: 0 })).boxed()
+        let chatter = if p.chatter {
+            proptest::option::weighted(
+                0.4,
+                (0u8..2, prop_oneof![3 => 0u8..3, 1 => 0u8..64], prop_oneof![2 => Just(0u8), 3 => Just(1u8), 1 => Just(2u8), 1 => Just(3u8)], prop_oneof![4 => 1u16..40, 1 => 40u16..1400], prop_oneof![3 => Just(0u32), 2 => 20_000u32..400_000, 2 => 400_000u32..1_500_000])
+                    .prop_map(|(e, ch, mode, size, gap_us)| Chatter { e, ch, mode, size, gap_us }),
+            )
+            .boxed()
+        } else {
+            Just(None).boxed()
+        };
+        (prop_oneof![Just(1_000u32), Just(10_000u32), Just(16_000u32), Just(30_000u32), Just(100_000u32)], chatter).prop_map(|(step_us, chatter)| Some(Tail { step_us, max_us: 0, chatter })).boxed()
     } else {
         Just(None).boxed()
     };
